@@ -28,6 +28,16 @@ class Data:
         self.dtype, self.ndim = dtype, ndim
         self.shape = Opaque("shape")
 
+    # any array method that allocates returns a *different* array object: identity-based obligations then see the copy
+    def copy(self, *a, **k):
+        return Data(self.dtype, self.ndim)
+
+    def astype(self, dtype=None, *a, **k):
+        return Data(dtype, self.ndim)
+
+    def view(self, *a, **k):
+        return Data(self.dtype, self.ndim)
+
 
 def setup(ctx):
     cfg = Config()
